@@ -666,6 +666,11 @@ func genC05(seed, index uint64, tier string) *Plan {
 	if g.Chance(0.25) {
 		cs.RawFiles["templates/lookup.yaml"] = "apiVersion: v1\nkind: ConfigMap\nmetadata:\n  name: c05-lookup\ndata:\n  found: {{ lookup \"v1\" \"ConfigMap\" \"kube-system\" \"kube-root-ca.crt\" | toJson | quote }}\n  list: {{ len (lookup \"v1\" \"Secret\" \"\" \"\") | quote }}\n"
 	}
+	if g.Chance(0.25) {
+		// a common idiom: take what lookup returns and fill it in when nothing was found. Without a cluster every call must
+		// start from an empty result of its own
+		cs.RawFiles["templates/lookupset.yaml"] = "{{- $s := lookup \"v1\" \"Secret\" .Release.Namespace \"c05-generated\" }}\n{{- $state := \"fresh\" }}\n{{- if $s.data }}{{ $state = \"found\" }}{{ else }}{{ $_ := set $s \"data\" (dict \"k\" (.Values.a | default \"none\" | toString)) }}{{ end }}\napiVersion: v1\nkind: ConfigMap\nmetadata:\n  name: c05-lookupset\ndata:\n  state: {{ $state | quote }}\n  k: {{ $s.data.k | quote }}\n"
+	}
 	if g.Chance(0.3) {
 		rs.UsesDNS = true
 		cs.RawFiles["templates/dns.yaml"] = "apiVersion: v1\nkind: ConfigMap\nmetadata:\n  name: c05-dns\ndata:\n  ip: {{ getHostByName \"verif-canary.example\" | quote }}\n"
